@@ -198,6 +198,9 @@ func (x *specRun) handlers(hs []*handler) *stop {
 			x.record(h.id)
 			x.tag("handler-error")
 			return &stop{true, h.arg}
+		case 'i': // a name that is not among the server's named routes (defined ones are inlined)
+			x.tag("invoke:unknown-name")
+			return &stop{true, 0}
 		case 'x', 'y':
 			isErr, st := x.s.realHandler(h.kind, h.arg)
 			x.tag(map[byte]string{'x': "real-error-handler", 'y': "real-static-response"}[h.kind] + ":" + []string{"default", "placeholder", "not-a-number", "number"}[min(h.arg, 3)])
@@ -356,6 +359,8 @@ func cHandlers(hs []*handler, k kont) kont {
 				isErr, st := s.realHandler(h.kind, h.arg)
 				return cres{isErr, st, s, ev}
 			}
+		case 'i':
+			k = func(s state, ev []event) cres { return cres{true, 0, s, ev} }
 		case 's':
 			k = func(s state, ev []event) cres {
 				r := cRoutes(h.routes, next)(s, ev)
@@ -436,7 +441,7 @@ func setsCanErr(sets [][]*matcher) bool {
 
 func hCanFail(h *handler) bool {
 	switch h.kind {
-	case 'f', 'x':
+	case 'f', 'x', 'i':
 		return true
 	case 'y':
 		return h.arg == 1 || h.arg == 2
